@@ -315,6 +315,10 @@ class Program:
                     logs[name] = logs.get(name, []) + extra
             except Exception as e:                      # pragma: no cover
                 logs.setdefault('yatiml', []).append('restoring moved functions skipped (%r)' % (e,))
+            try:
+                inline.collect_external_helpers(trees)
+            except Exception as e:                      # pragma: no cover
+                inline.EXTERNAL.clear()
             for name in trees:
                 try:
                     logs[name] = logs.get(name, []) + inline.restore_inlined(trees[name], name)
